@@ -273,6 +273,63 @@ func c16MappingOps() []c16Op {
 	}
 }
 
+// c16Restore is the operator's "restore" of mappings removed earlier: PutMapping of keys onto their ids,
+// issued only while at least one of the ids is absent (a put onto ids that are all present is what the
+// mappings alphabet explores; here it would only multiply histories without deleting/restoring anything).
+func c16Restore(keys []string, ids []int32) c16Op {
+	return c16Op{name: fmt.Sprintf("restoreMapping(%v,%v)", keys, ids), do: func(r *c16Run) (bool, error) {
+		missing := false
+		for _, id := range ids {
+			_, ok, err := r.db.GetMappingByID(context.Background(), id)
+			if err != nil {
+				return false, err
+			}
+			missing = missing || !ok
+		}
+		if !missing {
+			return false, nil
+		}
+		if err := r.db.PutMapping(context.Background(), keys, ids); err != nil {
+			return false, err
+		}
+		r.log = append(r.log, c16Log{idx: r.idx, kind: "putMapping"})
+		return true, nil
+	}}
+}
+
+// c16DeletionOps is the dedicated sub-alphabet of the mapping-deletion family (fewer operations, more
+// depth): on a world populated by ONE multi-key putMapping (c16DeletionWorld: k1..k4 -> 1..4, the longest
+// event of the family, executed on the primary like any other operation and part of the binlog) every
+// deleteMappings over every non-empty id subset of {1,2,3} (events of 1..3 ids; the primary writes only the
+// ids that were present, so the event sizes vary with the state as well; a deletion that finds none of its
+// ids writes nothing and is not extended), the restore of every single key onto its own id and one two-key
+// restore (PutMapping events of 1 and 2 keys after the 4-key one). What the family is for: consecutive events
+// of one replayed payload whose id / key lists have DIFFERENT lengths in every order (longer then shorter,
+// shorter then longer, equal), with the rows they name deleted and restored in between, x every snapshot
+// point - whatever a replayed event leaves behind in the replayer (decoded event structs, scratch slices)
+// meets a shorter successor.
+func c16DeletionOps() []c16Op {
+	var ops []c16Op
+	for mask := 1; mask < 8; mask++ {
+		var ids []int32
+		for b := 0; b < 3; b++ {
+			if mask&(1<<b) != 0 {
+				ids = append(ids, int32(b+1))
+			}
+		}
+		ops = append(ops, c16Delete(ids))
+	}
+	for i := 1; i <= 3; i++ {
+		ops = append(ops, c16Restore([]string{fmt.Sprintf("k%d", i)}, []int32{int32(i)}))
+	}
+	ops = append(ops, c16Restore([]string{"k1", "k2"}, []int32{1, 2}))
+	return ops
+}
+
+func c16DeletionWorld() c16Op {
+	return c16Put([]string{"k1", "k2", "k3", "k4"}, []int32{1, 2, 3, 4})
+}
+
 type c16Mismatch struct {
 	prio   int // smaller = reported first
 	sig    string
@@ -351,6 +408,25 @@ func c16Classify(log []c16Log, k int, lines []string, replica *vmetaDump) (strin
 	if mixed {
 		return "C16:replayed-rename-not-applied", 3
 	}
+	// a mapping the primary still has is missing on the replica, nothing but mapping lines differ, and a
+	// deleteMappings was among the replayed operations: the replayed deletion removed more than the primary's
+	replayedDelete := false
+	for _, l := range log {
+		replayedDelete = replayedDelete || (l.idx > k && l.kind == "deleteMappings")
+	}
+	onlyMappings, lost := len(lines) > 0, false
+	for _, ln := range lines {
+		switch {
+		case strings.HasPrefix(ln, "-mappings: ") && !strings.HasPrefix(ln, "-mappings: max_id="):
+			lost = true
+		case strings.HasPrefix(ln, "-mappings: "), strings.HasPrefix(ln, "+mappings: max_id="), strings.HasPrefix(ln, "-byvalue: "), strings.HasPrefix(ln, "+byvalue: "):
+		default:
+			onlyMappings = false
+		}
+	}
+	if replayedDelete && onlyMappings && lost {
+		return "C16:replayed-delete-mappings-removes-mapping-the-primary-kept", 0
+	}
 	return "", 0
 }
 
@@ -374,6 +450,9 @@ func c16RenameFreesName(log []c16Log, k int) bool {
 type c16Explorer struct {
 	part string
 	ops  []c16Op
+	// world: indices (>= NumOps of the BFS, so never chosen as a step) of the operations executed on the
+	// primary before every history; they are operations like the others (binlog events, snapshot points)
+	world []int
 	rep  *mc.Report
 	info sync.Map // history (string) -> c16Info: what the harness holds after that history
 	// sigSeen: the (at most 3) violating histories kept per signature; see run()
@@ -517,6 +596,10 @@ func (ex *c16Explorer) run(hist []int) mc.StepResult {
 		return infra(err)
 	}
 	defer os.RemoveAll(dir)
+	bfsHist := hist
+	if len(ex.world) > 0 {
+		hist = append(append([]int{}, ex.world...), hist...)
+	}
 	ok, prim, r, snaps, err := ex.primary(dir, hist)
 	if err != nil {
 		return infra(err)
@@ -524,7 +607,7 @@ func (ex *c16Explorer) run(hist []int) mc.StepResult {
 	if !ok {
 		return mc.StepResult{Applicable: false}
 	}
-	ex.info.Store(c16HistKey(hist), c16Info{slots: len(r.slots)})
+	ex.info.Store(c16HistKey(bfsHist), c16Info{slots: len(r.slots)})
 	log := r.log
 	var mm []c16Mismatch
 	// (a) fresh database file, whole binlog replayed
@@ -559,7 +642,7 @@ func (ex *c16Explorer) run(hist []int) mc.StepResult {
 		// tree. mc.BFS re-executes each violating history 5 more times to confirm it; three confirmed
 		// examples per signature are kept, further histories with the same signature are counted and
 		// dropped (neither re-confirmed nor extended: their state has already diverged).
-		hk := c16HistKey(hist)
+		hk := c16HistKey(bfsHist)
 		ex.sigMu.Lock()
 		keep := false
 		for _, k := range ex.sigSeen[best.sig] {
@@ -583,19 +666,21 @@ func (ex *c16Explorer) run(hist []int) mc.StepResult {
 
 func TestVerifC16(t *testing.T) {
 	rep := mc.NewReport("C16")
-	rep.Rule = "every history (sequence of applicable operations; refused or no-op requests are not extended) up to the depth bound over three alphabets: entities {create metric a / metric ns:a / namespace ns / group a / predefined -1, edit, rename, rename into a namespace, delete of the 1st and 2nd created entity, rename of the predefined entity}, mappings {getOrCreate (m1,k1) (m1,k2) (m2,k3), putMapping re-id and multi-key with an id collision, deleteMappings x2, putBootstrap x2, resetFlood to default and above max, clock +1 step}, and their union; for each history the binlog is replayed into a fresh file, onto the primary's own file and onto a snapshot taken after every k operations. Non-trivial: the replay applies at least one event that depends on an earlier one (anything but creates)"
+	rep.Rule = "every history (sequence of applicable operations; refused or no-op requests are not extended) up to the depth bound over four alphabets: entities {create metric a / metric ns:a / namespace ns / group a / predefined -1, edit, rename, rename into a namespace, delete of the 1st and 2nd created entity, rename of the predefined entity}, mappings {getOrCreate (m1,k1) (m1,k2) (m2,k3), putMapping re-id and multi-key with an id collision, deleteMappings x2, putBootstrap x2, resetFlood to default and above max, clock +1 step}, their union, and the mapping-deletion family {on a world populated by one putMapping k1..k4 -> 1..4: deleteMappings of every non-empty id subset of {1,2,3}, restore (putMapping while absent) of each single key onto its id, one two-key restore} explored one level deeper; for each history the binlog is replayed into a fresh file, onto the primary's own file and onto a snapshot taken after every k operations. Non-trivial: the replay applies at least one event that depends on an earlier one (anything but creates)"
 	// One history costs ~6 engine opens (each a real SQLite open + schema + binlog replay, ~0.1 CPU-s per
 	// history on the reference machine), so the depths are one below the design's 4/5 in the quick tier.
 	entityDepth := mc.Pick(3, 5)
 	mappingDepth := mc.Pick(3, 4)
 	mixedDepth := mc.Pick(2, 3)
+	deletionDepth := mc.Pick(3, 4)
 	if v, err := strconv.Atoi(os.Getenv("VERIF_C16_MAXDEPTH")); err == nil && v > 0 { // debugging aid only
-		entityDepth, mappingDepth, mixedDepth = min(entityDepth, v), min(mappingDepth, v), min(mixedDepth, v)
+		entityDepth, mappingDepth, mixedDepth, deletionDepth = min(entityDepth, v), min(mappingDepth, v), min(mixedDepth, v), min(deletionDepth, v)
 		rep.Cap(fmt.Sprintf("VERIF_C16_MAXDEPTH=%d", v))
 	}
 	rep.Bounds["entity_alphabet_depth"] = entityDepth
 	rep.Bounds["mapping_alphabet_depth"] = mappingDepth
 	rep.Bounds["union_alphabet_depth"] = mixedDepth
+	rep.Bounds["deletion_alphabet_depth"] = fmt.Sprintf("%d operations after the populating putMapping", deletionDepth)
 	rep.Bounds["snapshot_points"] = "every k in 0..len (0 = fresh file, len = the primary's own file after Close, else forced commit + Engine.Backup)"
 	rep.Bounds["options"] = "MaxBudget=2 BudgetBonus=1 StepSec=60 GlobalBudget=1"
 	rep.Assume("entity operations touch only metrics_v5/entity_history and mapping operations only mappings/flood_limits/property (by reading dbv2.go/binlog_event.go); the union alphabet is therefore explored one level shallower than the two families")
@@ -606,13 +691,18 @@ func TestVerifC16(t *testing.T) {
 		name  string
 		ops   []c16Op
 		depth int
+		world []c16Op // executed on the primary before every history (operations like the others)
 	}{
-		{"entities", c16EntityOps(), entityDepth},
-		{"mappings", c16MappingOps(), mappingDepth},
-		{"union", append(c16EntityOps(), c16MappingOps()...), mixedDepth},
+		{"entities", c16EntityOps(), entityDepth, nil},
+		{"mappings", c16MappingOps(), mappingDepth, nil},
+		{"union", append(c16EntityOps(), c16MappingOps()...), mixedDepth, nil},
+		{"deletions", c16DeletionOps(), deletionDepth, []c16Op{c16DeletionWorld()}},
 	}
 	for _, p := range parts {
-		ex := &c16Explorer{part: p.name, ops: p.ops, rep: rep, sigSeen: map[string][]string{}}
+		ex := &c16Explorer{part: p.name, ops: append(append([]c16Op{}, p.ops...), p.world...), rep: rep, sigSeen: map[string][]string{}}
+		for i := range p.world {
+			ex.world = append(ex.world, len(p.ops)+i)
+		}
 		t0 := time.Now()
 		st := mc.BFS(ex.run, mc.BFSOptions{NumOps: len(p.ops), MaxDepth: p.depth, Workers: workers, NoDedup: true, MaxViolations: 60})
 		for i, smp := range st.Samples {
@@ -622,6 +712,9 @@ func TestVerifC16(t *testing.T) {
 		}
 		rep.MergeBFS(p.name, st)
 		rep.Bounds[p.name+"_alphabet"] = ex.names(vmetaSeq(len(p.ops)))
+		if len(ex.world) > 0 {
+			rep.Bounds[p.name+"_world"] = ex.names(ex.world)
+		}
 		if n := ex.moreViolations.Load(); n > 0 {
 			rep.Parts[p.name+"_further_violating_histories_not_reconfirmed"] = n
 		}
